@@ -9,7 +9,7 @@ open Rbgp Rbgp.Term Rbgp.Wire
 
 inductive Case where
   | bgp (c : Codec) (chunks : List Bytes)
-  | xbgp (chunks : List Bytes)
+  | xbgp (c : Codec) (chunks : List Bytes)
   | rtr (chunks : List Bytes)
   | bfd (b : Bytes)
   deriving Repr
@@ -42,8 +42,13 @@ def codecOf? : Term → Option (Codec × Bool)
       else some (⟨ext, two, fams.map fun (a, s, p) => (famKey a s, p)⟩, fams.all fun (a, s, _) => modelledFam a s)
   | _ => none
 
+/-- a byte string: one atom `x<hex>` or a list of such atoms (concatenated; long strings are split) -/
+def bytesOf? : Term → Option Bytes
+  | .atom s => asBytes? (.atom s)
+  | .list l => (l.mapM asBytes?).map List.flatten
+
 def chunksOf? : Term → Option (List Bytes)
-  | .list (.atom "chunks" :: cs) => cs.mapM asBytes?
+  | .list (.atom "chunks" :: cs) => cs.mapM bytesOf?
   | _ => none
 
 def caseOf? : Term → Option Case
@@ -52,11 +57,11 @@ def caseOf? : Term → Option Case
       let chunks ← chunksOf? ch
       if allModelled then some (.bgp codec chunks) else none
   | .list [.atom "xbgp", c, ch] => do
-      let _ ← codecOf? c
+      let (codec, _) ← codecOf? c
       let chunks ← chunksOf? ch
-      some (.xbgp chunks)
+      some (.xbgp codec chunks)
   | .list [.atom "rtr", ch] => (chunksOf? ch).map .rtr
-  | .list [.atom "bfd", b] => (asBytes? b).map .bfd
+  | .list [.atom "bfd", b] => (bytesOf? b).map .bfd
   | _ => none
 
 /-! ## observations (printing) -/
@@ -118,10 +123,12 @@ def rtrMsgT : RtrMsg → Term
   | .endOfData s n a b c => tag "end-of-data" [nat s, nat n, nat a, nat b, nat c]
   | .cacheReset => sym "cache-reset"
   | .errorReport c => tag "error-report" [nat c]
+  | .unsupported t => tag "unsupported" [nat t]
 
 def rrecT : RRec → Term
   | .pdu n rem m => tag "pdu" [nat n, nat rem, rtrMsgT m]
   | .more rem => tag "more" [nat rem]
+  | .err n rem => tag "err" [nat n, nat rem]
   | .panic => list [sym "panic"]
   | .stall => list [sym "stall"]
 
@@ -140,7 +147,7 @@ def bfdT : Out (Except BfdErr BfdMsg) → Term
 /-- the model's observation of a case -/
 def runCase (p : Profile) : Case → Term
   | .bgp c chunks => tag "obs" ((bgpStream noHypDec p c [] chunks).map recT)
-  | .xbgp _ => tag "x" [sym "fine"]
+  | .xbgp _ _ => list [sym "hyp"]
   | .rtr chunks => tag "obs" ((rtrStream [] chunks).map rrecT)
   | .bfd b => tag "obs" [bfdT (bfdDecode b)]
 
@@ -175,7 +182,11 @@ def oracle (c : Case) (obs : Term) : String :=
   | .bfd b, .list [.atom "obs", .list (.atom "bfd" :: _)] => verdictStr (Spec.checkBfd b .decoded)
   | .bfd b, .list [.atom "obs", .list (.atom "bfd-err" :: _)] => verdictStr (Spec.checkBfd b .rejected)
   | .bfd b, .list [.atom "obs", .list [.atom "panic"]] => verdictStr (Spec.checkBfd b .panic)
-  | .xbgp _, .list [.atom "x", .atom cls] => verdictStr (Spec.checkHyp cls)
+  | .xbgp codec chunks, .list (.atom "obs" :: rs) =>
+      -- impl-only exploration of the hypothesis-backed NLRI decoders: same structural judgement
+      match rs.mapM srecOf? with
+      | some recs => verdictStr (Spec.checkBgpCase codec.maxLen chunks recs)
+      | none => "fail idx=0 clause=unparsable-observation"
   | _, _ => "fail idx=0 clause=unparsable-observation"
 
 end Rbgp.Wire.Codec
